@@ -146,35 +146,35 @@ func loadProgram(overlay map[string][]byte) (*loaded, error) {
 }
 
 type KernelResult struct {
-	Kernel        string            `json:"kernel"`
-	Entry         string            `json:"entry"`
-	Mode          string            `json:"mode"`
-	Params        map[string]int    `json:"bounds"`
-	Paths         int64             `json:"paths"`
-	States        int64             `json:"distinct_states"`
-	Steps         int64             `json:"ssa_instructions"`
-	Obligations   int64             `json:"obligations_discharged"`
-	Ends          map[string]int    `json:"path_ends"`
-	Queries       map[string]int64  `json:"solver_queries"`
-	SolverTimeS   float64           `json:"solver_time_s"`
-	WallS         float64           `json:"wall_s"`
-	Exhaustive    bool              `json:"exhaustive"`
-	Incomplete    string            `json:"incomplete,omitempty"`
-	Reach         map[string]int    `json:"reach_witnesses"`
-	MissingReach  []string          `json:"missing_reach,omitempty"`
-	FalseTwin     bool              `json:"false_twin_violated"`
-	SymbolicToEnd []string          `json:"symbolic_to_the_end"`
-	CaseSplit     []string          `json:"case_split"`
-	Intrinsics    []string          `json:"intrinsics"`
-	Assumptions   []string          `json:"assumptions,omitempty"`
-	Functions     []string          `json:"functions_encoded"`
-	Samples       []Sample          `json:"samples"`
-	Violations    []*Violation      `json:"violations,omitempty"`
-	Known         []*Violation      `json:"known_findings_seen,omitempty"`
-	Inconclusive  []*Violation      `json:"inconclusive,omitempty"`
-	CrossCheck    map[string]string `json:"solver_cross_check,omitempty"`
-	NativeValidated int             `json:"native_runs_agreeing"`
-	NativeVectors   int             `json:"native_vectors_replayed"`
+	Kernel          string            `json:"kernel"`
+	Entry           string            `json:"entry"`
+	Mode            string            `json:"mode"`
+	Params          map[string]int    `json:"bounds"`
+	Paths           int64             `json:"paths"`
+	States          int64             `json:"distinct_states"`
+	Steps           int64             `json:"ssa_instructions"`
+	Obligations     int64             `json:"obligations_discharged"`
+	Ends            map[string]int    `json:"path_ends"`
+	Queries         map[string]int64  `json:"solver_queries"`
+	SolverTimeS     float64           `json:"solver_time_s"`
+	WallS           float64           `json:"wall_s"`
+	Exhaustive      bool              `json:"exhaustive"`
+	Incomplete      string            `json:"incomplete,omitempty"`
+	Reach           map[string]int    `json:"reach_witnesses"`
+	MissingReach    []string          `json:"missing_reach,omitempty"`
+	FalseTwin       bool              `json:"false_twin_violated"`
+	SymbolicToEnd   []string          `json:"symbolic_to_the_end"`
+	CaseSplit       []string          `json:"case_split"`
+	Intrinsics      []string          `json:"intrinsics"`
+	Assumptions     []string          `json:"assumptions,omitempty"`
+	Functions       []string          `json:"functions_encoded"`
+	Samples         []Sample          `json:"samples"`
+	Violations      []*Violation      `json:"violations,omitempty"`
+	Known           []*Violation      `json:"known_findings_seen,omitempty"`
+	Inconclusive    []*Violation      `json:"inconclusive,omitempty"`
+	CrossCheck      map[string]string `json:"solver_cross_check,omitempty"`
+	NativeValidated int               `json:"native_runs_agreeing"`
+	NativeVectors   int               `json:"native_vectors_replayed"`
 }
 
 func paramsFor(k *Kernel, tier string) map[string]int {
